@@ -49,11 +49,17 @@ func DecodeKeyVersion(raw []byte, clock string) (KeyVersion, error) {
 // lacks a recorded time (the statement does not say what applies then).
 func KeysInForce(chain []KeyVersion, t uint64) (keys []string, version int, specified bool) {
 	version = -1
+	// A version that records no time for this clock was made when the clock did not exist yet in its
+	// repository, i.e. before anything of that namespace: it takes the time of the previous version, the
+	// beginning of time for leading versions (so a key it introduces is in force from there on).
+	var last uint64
 	for i, v := range chain {
+		tm := v.Time
 		if !v.HasTime {
-			return nil, -1, false
+			tm = last
 		}
-		if v.Time <= t {
+		last = tm
+		if tm <= t {
 			keys, version = v.Keys, i
 		}
 	}
